@@ -194,6 +194,10 @@ class IncrementalExecutor(Executor[DeliveryGroupMap]):
         self._deferred_execution_plans: RefMap[
             GroupedFieldSet, list[tuple[DeferUsageSet, ExecutionPlan]]
         ] = RefMap()
+        # All stream item queues created during the execution, shared with all
+        # sub-executors, so that they can be aborted when the execution stops,
+        # even if they are nested in results that never reached the scheduler
+        self._stream_item_queues: list[StreamItemQueue] = []
 
     def create_sub_executor(
         self, defer_usage_set: DeferUsageSet | None = None
@@ -236,6 +240,26 @@ class IncrementalExecutor(Executor[DeliveryGroupMap]):
             await gather(*awaitables, return_exceptions=True)
 
         return settle_awaitables()
+
+    async def cancel_incremental_work(
+        self, reason: BaseException | None = None
+    ) -> None:
+        """Cancel all pending incremental work and close the stream sources.
+
+        In addition to the work produced by this executor, this also aborts
+        all stream item queues that have been created by its sub-executors,
+        since these may be nested in results that never reached the scheduler
+        (their producers would otherwise stay parked on their queues for ever).
+        """
+        await super().cancel_incremental_work(reason)
+        awaitables: list[Any] = []
+        is_awaitable = self.is_awaitable
+        for queue in self._stream_item_queues:
+            abort_result = queue.abort(reason)
+            if is_awaitable(abort_result):
+                awaitables.append(abort_result)
+        if awaitables:
+            await gather(*awaitables, return_exceptions=True)
 
     def abort_in_background(self, reason: BaseException | None = None) -> None:
         """Abort the produced incremental work, settling cleanup in background.
@@ -689,7 +713,9 @@ class IncrementalExecutor(Executor[DeliveryGroupMap]):
             )
             return None
 
-        return StreamItemQueue(produce, on_abort, eager=enable_early_execution)
+        queue = StreamItemQueue(produce, on_abort, eager=enable_early_execution)
+        self._stream_item_queues.append(queue)
+        return queue
 
     def complete_stream_item(
         self,
